@@ -569,3 +569,61 @@ def rf132(run):
     if n < 5:
         raise F.AnalysisBroken('RF132: only %d reads of call_addr / machine_code found' % n)
     return n
+
+
+# ---------------------------------------------------------------------------------------------
+# RF147: block parameters of the interpreter shim live in the activation
+# ---------------------------------------------------------------------------------------------
+
+def rf147(run):
+    rule = 'RF147'
+    run.rule(rule, 'mir-interp.c, interp (the C entry of the interpreter shim): the copy of a by-value block parameter is storage of this '
+                   'activation (alloca) or memory the caller owns (a pointer taken with va_arg).  The address never derives from '
+                   'VARR_ADDR of a context-level vector: interpreted code re-enters the shim, the vector grows and moves, and the outer '
+                   'activation reads its parameter from freed memory')
+    tu = run.tu('mir')
+    f = tu.func('interp')
+    run.functions_analysed.add(('mir', f.name))
+    stores = [x for x in f.walk() if x['k'] == 'BinaryOperator' and x['op'] == '=' and F.src(F.strip(x['c'][0])).replace(' ', '').endswith('.a')
+              and 'arg_vals' in F.src(x['c'][0])]
+    if not stores:
+        raise F.AnalysisBroken('interp: stores of argument addresses not found')
+
+    def origin(e, depth=0, seen=None):
+        seen = seen if seen is not None else set()
+        e = F.strip(e)
+        k = e['k']
+        if k == 'CallExpr':
+            c = e.get('callee') or ''
+            if c in ('alloca', '__builtin_alloca'):
+                return {'activation (alloca)'}
+            if c.startswith('VARR_') and (c.endswith('addr') or c.endswith('get') or c.endswith('last')):
+                return {'context vector %s' % F.src(F.strip(F.call_args(e)[0]))[:40]}
+            return {'result of %s' % c}
+        if k == 'VAArgExpr' or 'va_arg' in F.src(e)[:12]:
+            return {'caller (va_arg)'}
+        if k == 'BinaryOperator' and e['op'] in ('+', '-'):
+            return origin(e['c'][0], depth, seen) | (origin(e['c'][1], depth, seen) if tu.type(F.strip(e['c'][1])) is not None and tu.type(F.strip(e['c'][1])).kind == 'ptr' else set())
+        if k == 'DeclRefExpr' and depth < 4 and e['n'] not in seen:
+            seen.add(e['n'])
+            out = set()
+            for x in f.walk():
+                if x['k'] in ('BinaryOperator', 'CompoundAssignOperator') and x['op'] in ('=', '+=') and F.src(F.strip(x['c'][0])) == e['n'] and x['op'] == '=':
+                    out |= origin(x['c'][1], depth + 1, seen)
+                if x['k'] == 'DeclStmt':
+                    for d in x.get('decls', []):
+                        if d['n'] == e['n'] and d.get('init') is not None:
+                            out |= origin(d['init'], depth + 1, seen)
+            return out or {'variable %s' % e['n']}
+        return {F.src(e)[:40]}
+    n = 0
+    for x in stores:
+        o = origin(x['c'][1])
+        bad = sorted(y for y in o if y.startswith('context vector'))
+        n += 1
+        run.ob(rule, (x['l'],), not bad, {'site': '%s:%d' % (f.relfile(), x['l']), 'origin': sorted(o)})
+        if bad:
+            run.violation(rule, f, 'block parameter copy in a context vector', '`%s` takes the address of a by-value block parameter from %s: a nested '
+                          'entry into the shim expands the vector (realloc), and the outer function then reads its parameter from the old, '
+                          'freed area — under the interpreter interface only' % (F.src(x)[:60], bad[0]), line=x['l'])
+    return n
